@@ -48,7 +48,7 @@ var fnWhitelist = map[string][]string{
 		"Info.Validate", "Export.Validate", "isContainedIn", "Exports.Validate", "Exports.HasExportContainingSubject", "Mapping.Validate",
 		"CreateValidationResults", "ResponsePermission.Validate", "Permissions.Validate",
 		"OperatorLimits.IsEmpty", "OperatorLimits.Validate", "ExternalAuthorization.Validate",
-		"UserScope.Validate", "SigningKeys.Validate", "Account.Validate", "AccountClaims.Validate", "GenericClaims.Validate", "AuthorizationRequestClaims.Validate", "AuthorizationResponseClaims.Validate", "TimeRange.Validate", "Limits.Validate", "User.Validate", "UserClaims.Validate", "ParseServerVersion", "Operator.validateAccountServerURL", "ValidateOperatorServiceURL", "Operator.validateOperatorServiceURLs", "Operator.Validate", "OperatorClaims.Validate", "OperatorClaims.ExpectedPrefixes", "AccountClaims.ExpectedPrefixes", "UserClaims.ExpectedPrefixes", "ActivationClaims.ExpectedPrefixes", "AuthorizationRequestClaims.ExpectedPrefixes", "AuthorizationResponseClaims.ExpectedPrefixes", "GenericClaims.ExpectedPrefixes", "Decode",
+		"UserScope.Validate", "SigningKeys.Validate", "Account.Validate", "AccountClaims.Validate", "GenericClaims.Validate", "AuthorizationRequestClaims.Validate", "AuthorizationResponseClaims.Validate", "TimeRange.Validate", "Limits.Validate", "User.Validate", "UserClaims.Validate", "ParseServerVersion", "Operator.validateAccountServerURL", "ValidateOperatorServiceURL", "Operator.validateOperatorServiceURLs", "Operator.Validate", "OperatorClaims.Validate", "OperatorClaims.ExpectedPrefixes", "AccountClaims.ExpectedPrefixes", "UserClaims.ExpectedPrefixes", "ActivationClaims.ExpectedPrefixes", "AuthorizationRequestClaims.ExpectedPrefixes", "AuthorizationResponseClaims.ExpectedPrefixes", "GenericClaims.ExpectedPrefixes", "Decode", "v1OperatorClaims.migrateV1", "v1UserClaims.migrateV1", "v1ActivationClaims.migrateV1", "SigningKeys.Add", "v1AccountClaims.migrateV1",
 	},
 	"V1": {
 		"Subject.HasWildCards", "Subject.IsContainedIn", "cleanSubject",
@@ -154,6 +154,16 @@ func (g *fnGen) leanType(t types.Type) string {
 	case *types.Struct:
 		if u.NumFields() == 0 {
 			return "Unit"
+		}
+		// an anonymous struct type: mirrored under a name made of its field names
+		{
+			var ns []string
+			for i := 0; i < u.NumFields(); i++ {
+				ns = append(ns, u.Field(i).Name())
+			}
+			name := "anon_" + strings.Join(ns, "_")
+			g.needStruct(name, u)
+			return "T_" + name
 		}
 	case *types.Slice:
 		if g.nilableElem(u.Elem()) {
@@ -770,7 +780,12 @@ func (c *fnCtx) expr(e ast.Expr) ex {
 	case *ast.Ident:
 		if x.Name == "nil" {
 			t := c.typeOf(e)
-			_ = t
+			if tv, ok := c.g.p.TypesInfo.Types[e]; ok && tv.Type != nil {
+				t = tv.Type
+			}
+			if _, isI := c.g.ifaceOf(t); isI {
+				return ex{"none", false} // a nil interface value
+			}
 			unsup("bare nil")
 		}
 		if x.Name == "true" || x.Name == "false" {
@@ -2109,6 +2124,13 @@ func (c *fnCtx) assign(b *block, x *ast.AssignStmt) {
 	}
 	if len(x.Lhs) > 1 {
 		unsup("parallel assignment")
+	}
+	// m[k] = nil / v = nil for an interface-typed destination
+	if c.isNilExpr(x.Rhs[0]) {
+		if _, isI := c.g.ifaceOf(c.typeOf(x.Lhs[0])); isI {
+			c.store(b, x.Lhs[0], "none")
+			return
+		}
 	}
 	// v := x.M() where M's slice result may be nil: v is a nilable slice
 	if call, ok := x.Rhs[0].(*ast.CallExpr); ok && x.Tok == token.DEFINE {
